@@ -84,6 +84,13 @@ def main():
                 continue
             judge(er["results"][0], {"hash": h(["harvest", m["origin"], ent["name"]]), "origin": "harvest:" + m["origin"], "source": m["src"], "entry": ent["name"], "tracing": run["tracing"]}, "harvested")
             chk.count("harvested_tests")
+    # one generic function instantiated at two representations in one program (total templates:
+    # any abort is reported, a structural one is a violation)
+    import mono_templates
+
+    mcases = mono_templates.cases(chk.seed, quick, per_module=2)
+    mjobs = A.jobs_for_generated(mcases, lambda c: [["verbose-all"], ["silent-all"]][c["index"] % 2])
+    mono_templates.judge(chk, "C06", mcases, A.run(mjobs, timeout=600), A.STRUCTURAL)
     for k, v in err_seen.items():
         chk.count("err:" + k, v)
     chk.assumptions = [
@@ -91,7 +98,7 @@ def main():
         "whether the *value* is right is C01's business; C06 only classifies failures",
     ]
     chk.finish(
-        rule="every evaluation of compiled well-typed code in the G-aiken streams (entries x argument tuples, silent and verbose) and of harvested unit tests; distinct = (module, entry, argument tuple)",
+        rule="every evaluation of compiled well-typed code in the G-aiken streams (entries x argument tuples, silent and verbose) of harvested unit tests, and of the monomorphisation templates (generic function at two instantiation types per program); distinct = (module, entry, argument tuple)",
         floor={"evaluations": 10000, "allowed_failures": 300, "harvested_tests": 50},
     )
 
